@@ -9,7 +9,7 @@ NS == <<"n1", "n2", "n3">>
 Trace == ndJsonDeserialize("trace.ndjson")
 VARIABLE l
 
-Rep(ok, e, kind) == ok \/ PrintT(<<"MISMATCH", l, e.ty, kind, IF "fl" \in DOMAIN e THEN e.fl ELSE "">>)
+Rep(ok, e, kind) == IF ok THEN TRUE ELSE PrintT(<<"MISMATCH", l, e.ty, kind, IF "fl" \in DOMAIN e THEN e.fl ELSE "">>)
 Same(e, f1, f2) == JCore(e.ty, e[f1].core) = JCore(e.ty, e[f2].core)
 
 Check(e) ==
